@@ -24,8 +24,6 @@ package xmlenc
 //@ ensures[C10,C11] length: err == nil ==> len(result) == len(buf) - int(buf[len(buf)-1])
 //@ ensures[C10,C11] prefix: err == nil ==> forall(0, len(result), func(k int) bool { return result[k] == buf[k] })
 //@ ensures[C11] nilonerr: err != nil ==> result == nil
-//@ assert@return[C10,C11] #last (out []byte, e2 error) uses aesgcm cipher.AEAD, nonce []byte, text []byte returns_what_open_authenticated:
-//@    e2 == nil && AEADOpened(aesgcm, nonce, text, out)
 
 //@ contract appendPadding
 //@ requires[cfg] bs: blockSize > 0 && blockSize <= 255
@@ -92,6 +90,8 @@ package xmlenc
 //@ assert@call[C10,C11] Open #1 (a cipher.AEAD, dst []byte, n []byte, sealed []byte, ad []byte) uses aesgcm cipher.AEAD, nonce []byte, text []byte opens_whole_value:
 //@    a == aesgcm && sameSlice(n, nonce) && sameSlice(sealed, text) && len(n) == a.NonceSize() && cap(n) == cap(sealed)+len(n) && len(ad) == 0
 //@ ensures[C11] nilonerr: err != nil ==> result == nil
+//@ assert@return[C10,C11] #last (out []byte, e2 error) uses aesgcm cipher.AEAD, nonce []byte, text []byte returns_what_open_authenticated:
+//@    e2 == nil && AEADOpened(aesgcm, nonce, text, out)
 
 //@ contract (RSA).Decrypt
 //@ requires[cfg] el: ciphertextEl != nil
